@@ -919,6 +919,7 @@ func run(r *harness.Run) {
 		Execs, Steps, MaxSteps int64
 		Observations           []string
 		Interrupted            bool
+		CompletedBound         int
 		Viol                   []struct {
 			Key, What string
 			Choices   []int
@@ -959,14 +960,14 @@ func run(r *harness.Run) {
 			r.Violation("schedule:"+sc.name+":"+v.Key, sc.name+": "+v.What+" (schedule "+fmt.Sprint(v.Choices)+")", "schedule", replayInput{sc.name, v.Choices})
 		}
 		if res.Interrupted {
-			r.Cap(fmt.Sprintf("scenario %s: time budget reached after %d schedules (bound %d not completed)", sc.name, res.Execs, bound))
+			r.Cap(fmt.Sprintf("scenario %s: time budget reached after %d schedules: bound %d completed, bound %d not", sc.name, res.Execs, res.CompletedBound, res.CompletedBound+1))
 		}
 		r.Vacuous(len(res.Observations) < 2 && !strings.HasPrefix(sc.name, "event-"), sc.name+": every schedule gave the same observation - nothing collided")
 		b := bound
 		if sc.heavy {
 			b--
 		}
-		lines = append(lines, fmt.Sprintf("%s: bound=%d schedules=%d distinct_observations=%d max_steps=%d", sc.name, b, res.Execs, len(res.Observations), res.MaxSteps))
+		lines = append(lines, fmt.Sprintf("%s: target_bound=%d completed_bound=%d schedules=%d distinct_observations=%d max_steps=%d", sc.name, b, res.CompletedBound, res.Execs, len(res.Observations), res.MaxSteps))
 		r.Count("schedules:"+strings.SplitN(sc.name, "[", 2)[0], res.Execs)
 		if os.Getenv("C19_TRACE") != "" {
 			fmt.Fprintf(os.Stderr, "%s\n", lines[len(lines)-1])
@@ -1091,6 +1092,7 @@ func child(name, boundS, budgetS, tier string) {
 		Execs, Steps, MaxSteps int64
 		Observations           []string
 		Interrupted            bool
+		CompletedBound         int
 		Viol                   []viol
 	}{}
 	// determinism: the default schedule twice must give identical observations
@@ -1119,34 +1121,47 @@ func child(name, boundS, budgetS, tier string) {
 		}
 	}()
 	violating := 0
-	st := explore.Explore(explore.Options{Bound: bound, Workers: 1, Stop: func() bool { return time.Now().After(deadline) || violating >= 25 }}, func(c *explore.Ctx) {
-		beat.Add(1)
-		res := runScheduled(*sc, c)
-		out.Execs++
-		out.Steps += int64(res.steps)
-		if int64(res.steps) > out.MaxSteps {
-			out.MaxSteps = int64(res.steps)
+	out.CompletedBound = -1
+	var st explore.Stats
+	// iterative context bounding: everything with 0 deviations, then <= 1, ... ; the bound reported as completed is the
+	// largest one whose exploration finished inside the budget
+	for b := 0; b <= bound; b++ {
+		if b > 0 && b < bound-1 {
+			continue // 0 (the default schedule), then the last two bounds
 		}
-		if !seen[res.obs] && len(seen) < 5000 {
-			seen[res.obs] = true
-		}
-		if len(res.viol) > 0 {
-			violating++ // the exploration stops early once the property is known to be violated
-		}
-		for _, v := range res.viol {
-			key := v
-			if i := strings.Index(key, " from the shared"); i > 0 {
-				key = key[:i]
+		st = explore.Explore(explore.Options{Bound: b, Workers: 1, Stop: func() bool { return time.Now().After(deadline) || violating >= 25 }}, func(c *explore.Ctx) {
+			beat.Add(1)
+			res := runScheduled(*sc, c)
+			out.Execs++
+			out.Steps += int64(res.steps)
+			if int64(res.steps) > out.MaxSteps {
+				out.MaxSteps = int64(res.steps)
 			}
-			if i := strings.Index(key, " (at "); i > 0 {
-				key = key[:i]
+			if !seen[res.obs] && len(seen) < 5000 {
+				seen[res.obs] = true
 			}
-			vseen[key]++
-			if vseen[key] <= 2 && len(out.Viol) < 20 {
-				out.Viol = append(out.Viol, viol{key, v, append([]int{}, c.Choices...)})
+			if len(res.viol) > 0 {
+				violating++ // the exploration stops early once the property is known to be violated
 			}
+			for _, v := range res.viol {
+				key := v
+				if i := strings.Index(key, " from the shared"); i > 0 {
+					key = key[:i]
+				}
+				if i := strings.Index(key, " (at "); i > 0 {
+					key = key[:i]
+				}
+				vseen[key]++
+				if vseen[key] <= 2 && len(out.Viol) < 20 {
+					out.Viol = append(out.Viol, viol{key, v, append([]int{}, c.Choices...)})
+				}
+			}
+		})
+		if st.Interrupted {
+			break
 		}
-	})
+		out.CompletedBound = b
+	}
 	out.Interrupted = st.Interrupted
 	for o := range seen {
 		out.Observations = append(out.Observations, o)
